@@ -1,3 +1,665 @@
 package main
 
-func runInject(r *rec, g *rng, tier, what, replay, out string, extra map[string]interface{}) {}
+import (
+	"encoding/binary"
+	"encoding/hex"
+	"encoding/json"
+	"errors"
+	"fmt"
+	"os"
+	"path/filepath"
+	"runtime/debug"
+	"sort"
+	"strings"
+	"sync"
+	"syscall"
+	"time"
+
+	"github.com/fsnotify/fsnotify"
+	"golang.org/x/sys/unix"
+)
+
+// ---------------------------------------------------------------------------
+// Injected mode: the unmodified readEvents goroutine decodes byte buffers that
+// the harness writes to a SOCK_SEQPACKET socket (one datagram = one read);
+// inotify_add_watch / inotify_rm_watch go to a real inotify instance.
+
+const (
+	inAccess     = 0x1
+	inModify     = 0x2
+	inAttrib     = 0x4
+	inCloseWrite = 0x8
+	inCloseNoWr  = 0x10
+	inOpen       = 0x20
+	inMovedFrom  = 0x40
+	inMovedTo    = 0x80
+	inCreate     = 0x100
+	inDelete     = 0x200
+	inDeleteSelf = 0x400
+	inMoveSelf   = 0x800
+	inUnmount    = 0x2000
+	inQOverflow  = 0x4000
+	inIgnored    = 0x8000
+	inIsdir      = 0x40000000
+)
+
+type rawRec struct {
+	wd     uint32
+	mask   uint32
+	cookie uint32
+	name   []byte // already padded: exactly what goes on the wire
+}
+
+func (r rawRec) bytes() []byte {
+	b := make([]byte, 16+len(r.name))
+	binary.LittleEndian.PutUint32(b[0:], r.wd)
+	binary.LittleEndian.PutUint32(b[4:], r.mask)
+	binary.LittleEndian.PutUint32(b[8:], r.cookie)
+	binary.LittleEndian.PutUint32(b[12:], uint32(len(r.name)))
+	copy(b[16:], r.name)
+	return b
+}
+
+// kernelPad pads like the kernel: roundup(len+1, 16) NUL-padded, or nothing for an empty name.
+func kernelPad(name string) []byte {
+	if name == "" {
+		return nil
+	}
+	n := (len(name)/16 + 1) * 16
+	b := make([]byte, n)
+	copy(b, name)
+	return b
+}
+
+type observed struct {
+	mu     sync.Mutex
+	events []fsnotify.Event
+	errs   []error
+	evDone bool
+	erDone bool
+}
+
+type session struct {
+	w        *fsnotify.Watcher
+	realFd   int
+	injectFd int
+	obs      *observed
+	root     string
+	sentinel string
+	sentWd   uint32
+	barrierN int
+	closed   bool
+	evSeen   int // events already attributed
+	erSeen   int
+}
+
+func errClass(err error) string {
+	if err == nil {
+		return "nil"
+	}
+	switch {
+	case errors.Is(err, fsnotify.ErrNonExistentWatch):
+		return "ErrNonExistentWatch"
+	case errors.Is(err, fsnotify.ErrClosed):
+		return "ErrClosed"
+	case errors.Is(err, fsnotify.ErrEventOverflow):
+		return "ErrEventOverflow"
+	}
+	var en syscall.Errno
+	if errors.As(err, &en) {
+		if n := unix.ErrnoName(en); n != "" {
+			return n
+		}
+		return fmt.Sprintf("errno%d", int(en))
+	}
+	return "other:" + strings.ReplaceAll(err.Error(), " ", "_")
+}
+
+func evStr(e fsnotify.Event) string {
+	return fmt.Sprintf("%s:%x:%s", hx(e.Name), uint32(e.Op), hx(fsnotify.VerifRenamedFrom(e)))
+}
+
+func stateStr(w *fsnotify.Watcher) string {
+	s := fsnotify.VerifTables(w)
+	var ws, ps, cs []string
+	for _, x := range s.Wd {
+		r := 0
+		if x.Recurse {
+			r = 1
+		}
+		ws = append(ws, fmt.Sprintf("%d:%d:%x:%s:%d", x.Key, x.Wd, x.Flags, hx(x.Path), r))
+	}
+	// sort paths bytewise (the snapshot is sorted with Go string order, which is bytewise too)
+	sort.Slice(s.Path, func(i, j int) bool { return s.Path[i].Path < s.Path[j].Path })
+	for _, x := range s.Path {
+		ps = append(ps, fmt.Sprintf("%s:%d", hx(x.Path), x.Wd))
+	}
+	for _, c := range s.Cookies {
+		cs = append(cs, fmt.Sprintf("%x:%s", c.Cookie, hx(c.Path)))
+	}
+	return fmt.Sprintf("W %s | P %s | C %d %s", strings.Join(ws, ";"), strings.Join(ps, ";"), s.CookieIndex, strings.Join(cs, ";"))
+}
+
+func newSession(root string, bufsz uint) *session {
+	w, realFd, injectFd, err := fsnotify.VerifNewInjected(bufsz)
+	check(err)
+	s := &session{w: w, realFd: realFd, injectFd: injectFd, obs: &observed{}, root: root}
+	go func() {
+		ev, er := w.Events, w.Errors
+		for ev != nil || er != nil {
+			select {
+			case e, ok := <-ev:
+				s.obs.mu.Lock()
+				if !ok {
+					ev = nil
+					s.obs.evDone = true
+				} else {
+					s.obs.events = append(s.obs.events, e)
+				}
+				s.obs.mu.Unlock()
+			case e, ok := <-er:
+				s.obs.mu.Lock()
+				if !ok {
+					er = nil
+					s.obs.erDone = true
+				} else {
+					s.obs.errs = append(s.obs.errs, e)
+				}
+				s.obs.mu.Unlock()
+			}
+		}
+	}()
+	return s
+}
+
+func (s *session) close() {
+	if !s.closed {
+		s.w.Close()
+		s.closed = true
+	}
+	unix.Close(s.realFd)
+	unix.Close(s.injectFd)
+}
+
+func (s *session) marks() string {
+	var ws []string
+	for _, m := range readFdinfo(s.realFd) {
+		ws = append(ws, fmt.Sprintf("%d", m.wd))
+	}
+	if len(ws) == 0 {
+		return "-"
+	}
+	return strings.Join(ws, ",")
+}
+
+// wdOfInode: what did inotify_add_watch answer for this path? The kernel's mark list tells.
+func (s *session) wdOf(path string, noFollow bool) (uint32, bool) {
+	var st unix.Stat_t
+	var err error
+	if noFollow {
+		err = unix.Lstat(path, &st)
+	} else {
+		err = unix.Stat(path, &st)
+	}
+	if err != nil {
+		return 0, false
+	}
+	for _, m := range readFdinfo(s.realFd) {
+		if m.ino == st.Ino {
+			return m.wd, true
+		}
+	}
+	return 0, false
+}
+
+// inject writes one datagram and then a barrier datagram; returns the events and errors the
+// watcher delivered for the datagram (everything that arrived before the barrier's own event).
+func (s *session) inject(buf []byte, timeout time.Duration) (evs []fsnotify.Event, errs []error, ok bool) {
+	if len(buf) > 0 {
+		if _, err := unix.Write(s.injectFd, buf); err != nil {
+			check(fmt.Errorf("inject write: %w", err))
+		}
+	}
+	s.barrierN++
+	bname := fmt.Sprintf("barrier%d", s.barrierN)
+	b := rawRec{wd: s.sentWd, mask: inCreate, name: kernelPad(bname)}.bytes()
+	if _, err := unix.Write(s.injectFd, b); err != nil {
+		check(fmt.Errorf("barrier write: %w", err))
+	}
+	want := s.sentinel + "/" + bname
+	deadline := time.Now().Add(timeout)
+	for {
+		s.obs.mu.Lock()
+		idx := -1
+		for i := s.evSeen; i < len(s.obs.events); i++ {
+			if s.obs.events[i].Name == want && s.obs.events[i].Op == fsnotify.Create {
+				idx = i
+				break
+			}
+		}
+		if idx >= 0 {
+			evs = append(evs, s.obs.events[s.evSeen:idx]...)
+			errs = append(errs, s.obs.errs[s.erSeen:]...)
+			s.evSeen = idx + 1
+			s.erSeen = len(s.obs.errs)
+			s.obs.mu.Unlock()
+			return evs, errs, true
+		}
+		done := s.obs.evDone
+		s.obs.mu.Unlock()
+		if done || time.Now().After(deadline) {
+			s.obs.mu.Lock()
+			evs = append(evs, s.obs.events[s.evSeen:]...)
+			errs = append(errs, s.obs.errs[s.erSeen:]...)
+			s.evSeen = len(s.obs.events)
+			s.erSeen = len(s.obs.errs)
+			s.obs.mu.Unlock()
+			return evs, errs, false
+		}
+		time.Sleep(20 * time.Microsecond)
+	}
+}
+
+func fmtOut(ret string, evs []fsnotify.Event, errs []error) string {
+	var es, xs []string
+	for _, e := range evs {
+		es = append(es, evStr(e))
+	}
+	for _, e := range errs {
+		xs = append(xs, errClass(e))
+	}
+	return fmt.Sprintf("R %s | E %s | X %s", ret, strings.Join(es, ","), strings.Join(xs, ","))
+}
+
+// safeCall runs an API call and turns a panic into the answer "PANIC".
+func safeCall(f func() error) (ret string) {
+	defer func() {
+		if r := recover(); r != nil {
+			ret = "PANIC"
+			_ = debug.Stack()
+		}
+	}()
+	return errClass(f())
+}
+
+// ---- operations ------------------------------------------------------------
+
+func (s *session) opAdd(r *rec, arg string, ops uint32, noFollow bool) {
+	opts := []fsnotify.VerifAddOpt{fsnotify.VerifWithOps(fsnotify.Op(ops))}
+	if noFollow {
+		opts = append(opts, fsnotify.VerifWithNoFollow())
+	}
+	marks := s.marks()
+	before := map[uint32]bool{}
+	for _, m := range readFdinfo(s.realFd) {
+		before[m.wd] = true
+	}
+	// the flags of an existing entry are OR-ed in by register(): IN_DONT_FOLLOW is sticky
+	effNoFollow := noFollow
+	pre := fsnotify.VerifTables(s.w)
+	for _, pe := range pre.Path {
+		if pe.Path == filepath.Clean(arg) {
+			for _, we := range pre.Wd {
+				if we.Key == pe.Wd && we.Flags&unix.IN_DONT_FOLLOW != 0 {
+					effNoFollow = true
+				}
+			}
+		}
+	}
+	ret := safeCall(func() error { return s.w.AddWith(arg, opts...) })
+	k := "err:" + ret
+	if ret == "nil" {
+		// what did inotify_add_watch answer? a mark that was not there before, or else the
+		// existing mark of the inode the (cleaned) path names
+		var fresh []uint32
+		for _, m := range readFdinfo(s.realFd) {
+			if !before[m.wd] {
+				fresh = append(fresh, m.wd)
+			}
+		}
+		if len(fresh) == 1 {
+			k = fmt.Sprintf("wd:%d", fresh[0])
+		} else if wd, ok := s.wdOf(filepath.Clean(arg), effNoFollow); ok {
+			k = fmt.Sprintf("wd:%d", wd)
+		} else {
+			k = "wd:unknown"
+		}
+	}
+	nf := 0
+	if noFollow {
+		nf = 1
+	}
+	r.emit("add", fmt.Sprintf("add %s %x %d k=%s marks=%s", hx(arg), ops, nf, k, marks),
+		fmtOut(ret, nil, nil)+" | "+stateStr(s.w))
+}
+
+func (s *session) opRemove(r *rec, arg string) {
+	marks := s.marks()
+	ret := safeCall(func() error { return s.w.Remove(arg) })
+	r.emit("remove", fmt.Sprintf("remove %s marks=%s", hx(arg), marks), fmtOut(ret, nil, nil)+" | "+stateStr(s.w))
+}
+
+func (s *session) opWatchList(r *rec) {
+	l := s.w.WatchList()
+	sort.Strings(l)
+	var hs []string
+	for _, p := range l {
+		hs = append(hs, hx(p))
+	}
+	r.emit("watchlist", "watchlist", "L "+strings.Join(hs, ";"))
+}
+
+func (s *session) opRaw(r *rec, buf []byte) bool {
+	marks := s.marks()
+	evs, errs, ok := s.inject(buf, 10*time.Second)
+	ans := fmtOut("nil", evs, errs) + " | " + stateStr(s.w)
+	if !ok {
+		ans += " | BARRIER-TIMEOUT"
+	}
+	r.emit("raw", fmt.Sprintf("raw %s marks=%s", hex.EncodeToString(buf), marks), ans)
+	return ok
+}
+
+// ---- universe ----------------------------------------------------------------
+
+type universe struct {
+	root  string
+	paths []string // things that exist and can be watched (absolute)
+	dirs  []string
+	files []string
+}
+
+func mkUniverse(root string) *universe {
+	u := &universe{root: root}
+	must := func(err error) { check(err) }
+	for _, d := range []string{"d0", "d1", "d0/sub", ".sentinel", "dir1", "dir10"} {
+		must(os.MkdirAll(filepath.Join(root, d), 0o755))
+	}
+	for _, f := range []string{"f0", "f1", "d0/x", "d0/y", "d1/z", "d0/sub/deep"} {
+		must(os.WriteFile(filepath.Join(root, f), []byte("x"), 0o644))
+	}
+	must(os.Symlink("d0", filepath.Join(root, "l0")))                      // relative link to dir
+	must(os.Symlink(filepath.Join(root, "f0"), filepath.Join(root, "lf"))) // absolute link to file
+	must(os.Symlink("nowhere", filepath.Join(root, "dangling")))           // dangling
+	must(os.Symlink("loopb", filepath.Join(root, "loopa")))                // loop
+	must(os.Symlink("loopa", filepath.Join(root, "loopb")))                //
+	must(os.Link(filepath.Join(root, "f0"), filepath.Join(root, "h0")))    // hard link
+	u.dirs = []string{"d0", "d1", "d0/sub", "dir1", "dir10", "l0"}
+	u.files = []string{"f0", "f1", "d0/x", "d0/y", "d1/z", "h0", "lf", "l0/x"}
+	u.paths = append(append([]string{}, u.dirs...), u.files...)
+	return u
+}
+
+// spell returns one of the equivalent spellings of root/rel (cwd is root).
+func (u *universe) spell(g *rng, rel string) string {
+	abs := filepath.Join(u.root, rel)
+	switch g.intn(9) {
+	case 0:
+		return rel // relative to cwd
+	case 1:
+		return "./" + rel
+	case 2:
+		return abs + "/" // trailing slash (fails with ENOTDIR for files: part of the malformed stream)
+	case 3:
+		return strings.Replace(abs, "/", "//", 1)
+	case 4:
+		return filepath.Dir(abs) + "/../" + filepath.Base(filepath.Dir(abs)) + "/" + filepath.Base(abs)
+	case 5:
+		return rel + "/."
+	default:
+		return abs
+	}
+}
+
+func (u *universe) badPath(g *rng) string {
+	switch g.intn(6) {
+	case 0:
+		return filepath.Join(u.root, "missing")
+	case 1:
+		return filepath.Join(u.root, "f0", "through-file")
+	case 2:
+		return filepath.Join(u.root, "loopa")
+	case 3:
+		return filepath.Join(u.root, strings.Repeat("n", 300))
+	case 4:
+		return filepath.Join(u.root, "dangling")
+	default:
+		return ""
+	}
+}
+
+var entryNames = []string{"a", "file", "with space", "-dash", ".dot", "ünï", "日本", "x y z", "n15-----------x", "n16------------x",
+	"n17-------------x", "n31---------------------------x", "n32----------------------------x", "n33-----------------------------x"}
+
+func genName(g *rng) string {
+	switch g.intn(10) {
+	case 0:
+		return strings.Repeat("L", 1+g.intn(255))
+	case 1:
+		return strings.Repeat("é", 1+g.intn(127))
+	case 2:
+		n := []int{1, 15, 16, 17, 31, 32, 33, 47, 48, 49, 254, 255}[g.intn(12)]
+		return strings.Repeat("k", n)
+	default:
+		return entryNames[g.intn(len(entryNames))]
+	}
+}
+
+var maskPool = []uint32{inCreate, inModify, inAttrib, inDelete, inMovedFrom, inMovedTo, inCloseWrite, inCloseNoWr, inOpen, inAccess,
+	inCreate | inIsdir, inDelete | inIsdir, inMovedFrom | inIsdir, inMovedTo | inIsdir, inDeleteSelf, inMoveSelf, inIgnored, inUnmount,
+	inQOverflow, inAttrib, inModify, inCreate, inDeleteSelf | inAttrib, inIgnored | inDeleteSelf, 0, inIsdir, inModify | inAttrib}
+
+// genRecord builds one synthetic inotify record against the current tables.
+func (s *session) genRecord(g *rng, cookies *[]uint32) rawRec {
+	snap := fsnotify.VerifTables(s.w)
+	var rr rawRec
+	// wd: live (70 %), sentinel never, removed/never-issued, -1
+	switch {
+	case len(snap.Wd) > 1 && g.chance(75):
+		for {
+			x := snap.Wd[g.intn(len(snap.Wd))]
+			if x.Key != s.sentWd {
+				rr.wd = x.Key
+				break
+			}
+		}
+	case g.chance(30):
+		rr.wd = 0xffffffff
+	default:
+		rr.wd = uint32(1 + g.intn(40))
+		if rr.wd == s.sentWd {
+			rr.wd = 999
+		}
+	}
+	if g.chance(85) {
+		rr.mask = maskPool[g.intn(len(maskPool))]
+	} else {
+		rr.mask = g.u32() & 0x4000efff // random combination of inspected bits
+	}
+	if rr.wd == 0xffffffff && g.chance(70) {
+		rr.mask = inQOverflow
+	}
+	// cookies for moves
+	if rr.mask&(inMovedFrom|inMovedTo) != 0 {
+		switch g.intn(5) {
+		case 0:
+			rr.cookie = 0
+		case 1, 2:
+			if len(*cookies) > 0 {
+				rr.cookie = (*cookies)[g.intn(len(*cookies))]
+			} else {
+				rr.cookie = 1 + uint32(g.intn(1000))
+			}
+		default:
+			rr.cookie = 1000 + uint32(len(*cookies))
+			*cookies = append(*cookies, rr.cookie)
+		}
+	} else if g.chance(5) {
+		rr.cookie = g.u32()
+	}
+	// name: self events carry none; directory-entry events carry one
+	self := rr.mask&(inDeleteSelf|inMoveSelf|inIgnored|inUnmount|inQOverflow) != 0
+	if !self || g.chance(10) {
+		if g.chance(85) {
+			nm := genName(g)
+			switch g.intn(12) {
+			case 0: // over-padded (legal: extra NULs)
+				b := kernelPad(nm)
+				rr.name = append(b, make([]byte, 16)...)
+			case 1: // no padding at all (name ends at the record end)
+				rr.name = []byte(nm)
+			case 2: // interior NUL
+				b := kernelPad(nm + "\x00tail")
+				rr.name = b
+			default:
+				rr.name = kernelPad(nm)
+			}
+		}
+	}
+	return rr
+}
+
+// ---- session generator --------------------------------------------------------
+
+func runInject(r *rec, g *rng, tier, what, replay, out string, extra map[string]interface{}) {
+	nsess := 40
+	steps := 40
+	if tier == "thorough" {
+		nsess, steps = 600, 80
+	}
+	only := -1
+	base := g.s
+	if replay != "" {
+		var rp struct {
+			Detail struct {
+				Session int    `json:"session"`
+				Seed    uint64 `json:"seed"`
+				Tier    string `json:"tier"`
+			} `json:"detail"`
+		}
+		b, err := os.ReadFile(replay)
+		check(err)
+		check(json.Unmarshal(b, &rp))
+		only = rp.Detail.Session
+		base = rp.Detail.Seed
+		if rp.Detail.Tier == "thorough" {
+			nsess, steps = 600, 80
+		}
+	}
+	mon, err := os.Create(filepath.Join(out, "monitor.jsonl"))
+	check(err)
+	defer mon.Close()
+	cwd, _ := os.Getwd()
+	defer os.Chdir(cwd)
+	for si := 0; si < nsess; si++ {
+		if only >= 0 && si != only {
+			continue
+		}
+		sg := &rng{s: base*1000003 + uint64(si)*7919}
+		root, err := os.MkdirTemp("", "fsnverif-inj")
+		check(err)
+		root, _ = filepath.EvalSymlinks(root)
+		u := mkUniverse(root)
+		check(os.Chdir(root))
+		bufsz := []uint{0, 0, 1, 2, 7, 64, 4096}[sg.intn(7)]
+		s := newSession(root, bufsz)
+		s.sentinel = filepath.Join(root, ".sentinel")
+		startSeq := r.seq
+		r.emit("reset", fmt.Sprintf("reset session=%d bufsz=%d", si, bufsz), "ok")
+		s.opAdd(r, s.sentinel, 0x1f, false)
+		if wd, ok := s.wdOf(s.sentinel, false); ok {
+			s.sentWd = wd
+		} else {
+			check(fmt.Errorf("sentinel watch failed"))
+		}
+		runSession(r, sg, s, u, steps, mon, si, base, tier, startSeq)
+		s.close()
+		os.Chdir(cwd)
+		os.RemoveAll(root)
+	}
+	extra["sessions"] = nsess
+}
+
+func runSession(r *rec, g *rng, s *session, u *universe, steps int, mon *os.File, si int, seed uint64, tier string, startSeq int) {
+	var cookies []uint32
+	report := func(sig, what string, detail map[string]interface{}) {
+		detail["session"] = si
+		detail["seed"] = seed
+		detail["tier"] = tier
+		detail["first_seq"] = startSeq + 1
+		b, _ := json.Marshal(map[string]interface{}{"signature": sig, "what": what, "session": si, "seed": seed, "tier": tier, "detail": detail})
+		mon.Write(append(b, '\n'))
+	}
+	_ = report
+	for i := 0; i < steps; i++ {
+		switch c := g.intn(100); {
+		case c < 22: // add something valid, in some spelling
+			rel := u.paths[g.intn(len(u.paths))]
+			ops := uint32(0x1f)
+			if g.chance(15) {
+				ops = 1 + uint32(g.intn(511))
+			}
+			s.opAdd(r, u.spell(g, rel), ops, g.chance(8))
+		case c < 27: // malformed stream
+			s.opAdd(r, u.badPath(g), 0x1f, false)
+		case c < 37:
+			if g.chance(75) {
+				l := s.w.WatchList()
+				sort.Strings(l) // map order must not leak into the generator
+				if len(l) > 1 {
+					p := l[g.intn(len(l))]
+					if p != s.sentinel {
+						s.opRemove(r, p)
+						continue
+					}
+				}
+			}
+			s.opRemove(r, u.spell(g, u.paths[g.intn(len(u.paths))]))
+		case c < 42:
+			s.opWatchList(r)
+		case c < 47: // kill a kernel mark behind the library's back (file deleted / replaced)
+			f := u.files[g.intn(len(u.files))]
+			p := filepath.Join(u.root, f)
+			if fi, err := os.Lstat(p); err == nil && fi.Mode().IsRegular() {
+				os.Remove(p)
+				if g.chance(60) {
+					os.WriteFile(p, []byte("new"), 0o644) // same name, new inode
+				}
+				r.notes["fs:unlink"]++
+			}
+		default: // a datagram of 1..k synthetic records
+			k := 1
+			switch g.intn(10) {
+			case 0:
+				k = 2 + g.intn(30)
+			case 1, 2, 3:
+				k = 2 + g.intn(4)
+			}
+			var buf []byte
+			for j := 0; j < k; j++ {
+				rr := s.genRecord(g, &cookies)
+				if len(buf)+16+len(rr.name) > 60000 {
+					break
+				}
+				buf = append(buf, rr.bytes()...)
+				// a MOVED_TO right after its MOVED_FROM, most of the time
+				if rr.mask&inMovedFrom != 0 && rr.cookie != 0 && g.chance(60) {
+					to := s.genRecord(g, &cookies)
+					to.mask = inMovedTo | (rr.mask & inIsdir)
+					to.cookie = rr.cookie
+					if to.name == nil {
+						to.name = kernelPad(genName(g))
+					}
+					buf = append(buf, to.bytes()...)
+				}
+			}
+			if g.chance(4) && len(buf) > 0 { // trailing partial header (< 16 bytes): ignored by the loop
+				buf = append(buf, make([]byte, 1+g.intn(15))...)
+			}
+			if !s.opRaw(r, buf) {
+				return
+			}
+		}
+	}
+	s.opWatchList(r)
+}
